@@ -2446,8 +2446,14 @@ class BADS:
             or self.options["uncertain_incumbent"]
         ):
             tmp_gp = copy.deepcopy(gp)
-            tmp_gp.set_hyperparameters(hyp_best)
-            f_target_mu, fs2 = tmp_gp.predict(np.atleast_2d(u))
+            try:
+                tmp_gp.set_hyperparameters(hyp_best)
+                f_target_mu, fs2 = tmp_gp.predict(np.atleast_2d(u))
+            except np.linalg.LinAlgError:
+                # The posterior cannot be computed with these hyperparameters:
+                # treated below like a non-finite prediction
+                f_target_mu = np.full((1, 1), np.nan)
+                fs2 = np.full((1, 1), np.nan)
 
             f_target_s = np.sqrt(np.max(fs2, axis=0))
             if (
